@@ -302,9 +302,13 @@ func (r *vlkReq) park(g string) {
 	<-r.release
 }
 
+// requests named u* (dual stack) and w* (v6 only) name a ClientConf generation no subnet file has: their first selection
+// fails and processBdReq returns that error from inside the locked region
+func vlkFails(name string) bool { return name[0] == 'u' || name[0] == 'w' }
+
 func vlkFamOf(name string) string {
 	switch name[0] {
-	case 'd':
+	case 'd', 'u':
 		return "dual"
 	case 'f':
 		return "v4"
@@ -351,7 +355,11 @@ func vlkNewWorld(t testing.TB, files *vlkFiles, gated bool, reqNames, relNames [
 		t.Fatal(err)
 	}
 	for _, n := range reqNames {
-		c2s, seed := vlkMkRequest(n, salt, 1)
+		gen := uint32(1)
+		if vlkFails(n) {
+			gen = 7
+		}
+		c2s, seed := vlkMkRequest(n, salt, gen)
 		rq := &vlkReq{name: n, fam: vlkFamOf(n), c2s: c2s, seed: seed, parked: make(chan string, 8),
 			release: make(chan struct{}), done: make(chan struct{}), at: "idle"}
 		w.reqs[n] = rq
@@ -804,6 +812,13 @@ func vlkRunBehaviour(t testing.TB, files *vlkFiles, b *vlkBeh, salt int, boundMu
 	out.Resp = map[string]string{}
 	out.Errs = map[string]string{}
 	for n, rq := range w.reqs {
+		if vlkFails(n) {
+			if rq.err == nil {
+				out.Errs[n] = "a request naming an unknown generation returned no error"
+			}
+			out.Resp[n] = "-/-"
+			continue
+		}
 		if rq.err != nil || rq.resp == nil {
 			out.Errs[n] = fmt.Sprint(rq.err)
 			continue
